@@ -119,8 +119,8 @@ Definition parse_line (l : line) : cmd :=
 
 (* ---- what the debugger prints ---- *)
 Inductive event :=
-| EvPause (isbp : bool) (i c f j : N)      (* banner: title Breakpoint / Debug Step, address, ops executed, flip, jump *)
-| EvPauseFault (i c : N)                   (* "program break" printed, the banner raised *)
+| EvPause (isbp : bool) (i c : N) (f j : option N)   (* banner: title Breakpoint / Debug Step, address, ops executed,
+                                                         flip, jump; None = '(outside the memory segments)' *)
 | EvAct (a : action)                       (* ": step" ... printed when the prompt returns *)
 | EvHelp | EvUsage | EvUnknown | EvSkipNaN | EvSkipNonPos (n : Z)
 | EvReadWord (a : Z) (v : N) | EvReadVar (first last : Z) (v : N)
@@ -258,7 +258,7 @@ Fixpoint query (mm : mem) (tbl : list (line * Z)) (script : list line) : action 
 
 (* ---- the featured loop with the handler ---- *)
 Inductive hstate := HGone | HAlive (next_break : option N).       (* HGone: handler dropped by continue-all *)
-Inductive dcause := DM (c : cause) | DQuit | DEof | DBanner (a : N).   (* DQuit/DEof: KeyboardInterrupt *)
+Inductive dcause := DM (c : cause) | DQuit | DEof.   (* DQuit/DEof: KeyboardInterrupt *)
 Record dres := mkdres { d_cause : dcause; d_st : st; d_events : list event; d_rest : list line }.
 
 Definition should_break (bps : list N) (nb : option N) (i c : N) : bool :=
@@ -267,12 +267,12 @@ Definition should_break (bps : list N) (nb : option N) (i c : N) : bool :=
 (* register_op_address(ip) has happened when the handler runs *)
 Definition touch (s : st) : st := mkst s.(ip) s.(m) s.(inp) s.(outp) s.(ops) (s.(ip) :: s.(hist)).
 
-(* get_breakpoint_message_body: flip word, then jump word, both BEFORE the op (finding F11) *)
-Definition banner (mm : mem) (i : N) : N + (N * N) :=
-  match rd_get_word mm i with
-  | inl a => inl a
-  | inr f => match rd_get_word mm (i + w) with inl a => inl a | inr j => inr (f, j) end
-  end.
+(* get_breakpoint_message_body / _get_word_str: the flip word and the jump word are read BEFORE the op, each on its
+   own; a FlipJumpRuntimeMemoryException is caught and shown as '(outside the memory segments)' - the banner never
+   ends the run (this was finding F11 before the fix) *)
+Definition word_str (r : N + N) : option N := match r with inr v => Some v | inl _ => None end.
+Definition banner (mm : mem) (i : N) : option N * option N :=
+  (word_str (rd_get_word mm i), word_str (rd_get_word mm (i + w))).
 
 (* apply_debug_action *)
 Definition apply_action (a : action) (c : N) : option hstate :=
@@ -287,8 +287,7 @@ Definition apply_action (a : action) (c : N) : option hstate :=
 Definition prepend (evs : list event) (r : dres) : dres :=
   mkdres r.(d_cause) r.(d_st) (evs ++ r.(d_events)) r.(d_rest).
 
-(* the head of one loop iteration: should_break + handle_breakpoint.  PStop = the run ends here (the banner raised,
-   or exit); PGo = the op at ip is executed next with this handler state, remaining script and printed text *)
+(* the head of one loop iteration: should_break + handle_breakpoint.  PStop = the run ends here (exit); PGo = the op at ip is executed next with this handler state, remaining script and printed text *)
 Inductive pre := PStop (d : dcause) (evs : list event) (rest : list line)
                | PGo (h' : hstate) (rest : list line) (evs : list event).
 
@@ -297,15 +296,12 @@ Definition pre_op (bps : list N) (tbl : list (line * Z)) (s : st) (h : hstate) (
   | HGone => PGo HGone script []
   | HAlive nb =>
     if should_break bps nb s.(ip) s.(ops) then
-      match banner s.(m) s.(ip) with
-      | inl a => PStop (DBanner a) [EvPauseFault s.(ip) s.(ops)] script
-      | inr (f, j) =>
-        let '(act, eof, evs, rest) := query s.(m) tbl script in
-        let evs' := EvPause (existsb (N.eqb s.(ip)) bps) s.(ip) s.(ops) f j :: evs ++ [EvAct act] in
-        match apply_action act s.(ops) with
-        | Some h' => PGo h' rest evs'
-        | None => PStop (if eof then DEof else DQuit) evs' rest
-        end
+      let '(f, j) := banner s.(m) s.(ip) in
+      let '(act, eof, evs, rest) := query s.(m) tbl script in
+      let evs' := EvPause (existsb (N.eqb s.(ip)) bps) s.(ip) s.(ops) f j :: evs ++ [EvAct act] in
+      match apply_action act s.(ops) with
+      | Some h' => PGo h' rest evs'
+      | None => PStop (if eof then DEof else DQuit) evs' rest
       end
     else PGo h script []
   end.
@@ -341,16 +337,14 @@ Fixpoint pauses (evs : list event) : list (N * N) :=
   match evs with
   | [] => []
   | EvPause _ i c _ _ :: r => (i, c) :: pauses r
-  | EvPauseFault i c :: r => (i, c) :: pauses r
   | _ :: r => pauses r
   end.
 
 Definition ran_dry (r : dres) : bool := match d_cause r with DEof => true | _ => false end.
-Definition pause_words_valid (r : dres) : bool := match d_cause r with DBanner _ => false | _ => true end.
 
-(* how fjm_run.run reports the end of a debugged run: a banner fault is a RuntimeMemoryError like any other *)
+(* how fjm_run.run reports the end of a debugged run: KeyboardInterrupt is not a machine cause *)
 Definition reported_cause (d : dcause) : option cause :=
-  match d with DM c => Some c | DBanner a => Some (MemErr a) | DQuit | DEof => None end.
+  match d with DM c => Some c | DQuit | DEof => None end.
 Definition dobs (r : dres) : option (list bool * cause * N) :=
   match reported_cause (d_cause r) with
   | Some c => Some (outp (d_st r), c, ops (d_st r))
@@ -360,10 +354,11 @@ Definition dobs (r : dres) : option (list bool * cause * N) :=
 (* numeric encoding of the transcript for the campaign (same numbering as workers/debugger.py) *)
 Definition action_code (a : action) : list Z :=
   match a with AStep => [0] | ASkip _ => [1] | AContinue => [2] | AContinueAll => [3] | AExit => [4] end%Z.
+Definition optz (o : option N) : Z := match o with Some v => Z.of_N v | None => (-1)%Z end.
+(* code 1 (a pause whose banner raised) is produced by the worker only: the model has no such event any more *)
 Definition event_code (e : event) : list Z :=
   match e with
-  | EvPause b i c f j => [0; if b then 1 else 0; Z.of_N i; Z.of_N c; Z.of_N f; Z.of_N j]
-  | EvPauseFault _ _ => [1]
+  | EvPause b i c f j => [0; if b then 1 else 0; Z.of_N i; Z.of_N c; optz f; optz j]
   | EvAct a => 2 :: action_code a
   | EvHelp => [3] | EvUsage => [4] | EvUnknown => [5] | EvSkipNaN => [6] | EvSkipNonPos n => [7; n]
   | EvReadWord a v => [8; a; Z.of_N v]
@@ -385,7 +380,7 @@ Record dcase := mkdcase {
 Definition dcause_code (d : dcause) : N * N :=
   match d with
   | DM Looping => (0, 0) | DM EOFc => (1, 0) | DM NullIP => (2, 0) | DM (MemErr a) => (5, a) | DM OutOfFuel => (7, 0)
-  | DBanner a => (5, a) | DQuit | DEof => (6, 0)
+  | DQuit | DEof => (6, 0)
   end.
 
 Definition run_dcase (c : dcase) : dres :=
@@ -423,8 +418,7 @@ Definition check_dcase (c : dcase) : bool :=
   (N.of_nat (List.length c.(k_script) - List.length (d_rest r)) =? c.(x_consumed)).
 
 (* the pause specification evaluated on the OBSERVED transcript: the (address, ops executed) pairs the real
-   debugger printed against expected_pauses over the undebugged machine trace.  A pause whose banner raised prints
-   no numbers: the observed list must then be the expected list without its last element. *)
+   debugger printed against expected_pauses over the undebugged machine trace. *)
 Fixpoint observed_pauses (evs : list (list Z)) : list (N * N) :=
   match evs with
   | [] => []
@@ -437,8 +431,7 @@ Fixpoint pairs_eqb (a b : list (N * N)) : bool :=
 Definition spec_pauses_dcase (c : dcase) : bool :=
   let tr := trace c.(k_ww) c.(k_segs) (N.to_nat c.(k_fuel)) (init (mem_of_list c.(k_words)) (bytes_bits c.(k_input))) in
   let ex := expected_pauses c.(k_bps) tr None (actions_of c.(k_script)) in
-  let faulted := existsb (fun e => match e with [1%Z] => true | _ => false end) c.(x_events) in
-  pairs_eqb (observed_pauses c.(x_events)) (if faulted then removelast ex else ex).
+  pairs_eqb (observed_pauses c.(x_events)) ex.
 
 (* triage helper: is the first event on which model and observation differ a read answer? *)
 Fixpoint first_diff (a b : list (list Z)) : option (list Z * list Z) :=
